@@ -79,6 +79,7 @@ def run(ctx):
     from .c03 import explanation_configuration
     explanation_configuration(ctx, 'C18.R6')
     derived_violation_flags(ctx, 'C18.R7')
+    _who_builds_metadata(ctx)
 
     # ---- R2 ----------------------------------------------------------------------
     ctx.rule('C18.R2', 'each hint_sane= argument of enqueue_hint_child_sane and each HintDataError(…) argument is defined '
@@ -484,3 +485,27 @@ def derived_violation_flags(ctx, RULE):
         ctx.ob(RULE, f'derived-flag:{t.attr}', m.where(a), f'the flag is derived from _violation_{mt.group(1)}_type only',
                used == [f'_violation_{mt.group(1)}_type'], f'derived from {used}')
     ctx.floor(RULE, n, 3, 'derived raise-or-warn flags')
+
+
+def _who_builds_metadata(ctx):
+    """R8: who may build sanified metadata."""
+    repo = ctx.repo
+    ctx.rule('C18.R8', 'who may build sanified hint metadata: make_hint_sane(…) / HintSane(…) are called only by the conversion '
+             'pipeline (beartype/_check/convert) and by the metadata module itself — metadata built anywhere else (the code '
+             'generator, the explanation path) wraps a hint that has not passed the reducers, so overrides and the tower are '
+             'silently not applied to it')
+    inside = 0
+    outside = []
+    for mn, m in sorted(repo.modules.items()):
+        for c in [x for x in ast.walk(m.tree) if isinstance(x, ast.Call) and (dotted(x.func) or '').split('.')[-1] in ('make_hint_sane', 'HintSane')]:
+            if mn.startswith('beartype._check.convert') or mn == 'beartype._check.cls.hint.hintsane':
+                inside += 1
+            else:
+                outside.append((m, c))
+    for m, c in outside:
+        fn = enclosing_function(c)
+        ctx.ob('C18.R8', f'builds-metadata:{m.name.rsplit(".", 1)[-1]}.{qualname_of(fn) if fn is not None else "<module>"}', m.where(c),
+               'sanified metadata is built by the conversion pipeline only', False, f'`{norm(c)[:90]}` builds metadata for an unreduced hint')
+    ctx.ob('C18.R8', 'builds-metadata:conversion-pipeline', 'beartype/_check/convert/convmain.py:0',
+           f'{inside} constructions inside the conversion pipeline, none outside', not outside, f'{len(outside)} outside')
+    ctx.floor('C18.R8', inside, 4, 'metadata constructions in the conversion pipeline')
